@@ -75,9 +75,9 @@ func graphSweep(c *Ctx, maxN int, thorough bool, emit func(g *gspec)) {
 			// A'. the same universe served by a remote site (root on http://h, with a host that differs by its port only)
 			if n <= 2 || thorough {
 				savedPl := pl
-				pl = []int{0, 1, 2, 3, 4, 8, 10}
+				pl = []int{0, 1, 2, 3, 4, 8, 10, 13}
 				if n >= 3 {
-					pl = []int{0, 1, 3, 10}
+					pl = []int{0, 1, 3, 10, 13}
 				}
 				remote := base.clone()
 				remote.Site = 1
